@@ -19,6 +19,8 @@ CLAIMED.update({
 "C40":other("Per-call structure of the epoch timers: guard dominance of handler calls, done=true post-dominance, flag writer sets, lock span, sub-epoch handlers examined on every non-done call.")+("static analysis: guard-dominance dataflow + must-follow (post-dominance) fixpoint + field-writer table on go/ssa",),
 "C46":other("Short-read safety of Restore (no bare Reader.Read with discarded count), Dump/Restore framing agreement, counter advanced only after tolerated Put outcomes.")+("static analysis: API-contract lint bound to the property (with positive fixture) + guard dominance + sibling agreement on go/ssa",),
 "C07":other("Lock protection in the metabase status machinery and its GC callers: guard dominance of garbage marks/tombstone counting by objectLocked==false and not-a-LOCK, of non-available statuses and expiry yields by objectLocked==false; live-lock lookup shape; engine expired-object deletion after the lock check; caller table of physical deletion.")+(T_GUARD.replace("handlers enumerated from the generated service interfaces","metabase/shard/engine anchors resolved by type identity")+"; who-may-call table",),
+"C12":other("Publish-after-complete-write discipline of both file-tree writers: the link/rename that exposes the final name is dominated by a successful full-length write; the final path never reaches a file-creating call; temporary-name separator agreement; only EEXIST tolerated.")+("static analysis: guard-dominance dataflow + value-flow check of the final-path parameter + constant agreement on go/ssa",),
+"C13":other("Path-sensitive enumeration of all control-flow paths of the writers: verified helper summaries, lock balance at every exit, at most one batch finalization per path, success only on fault-free paths, sticky batch error.")+("static analysis: path-sensitive typestate/lock-balance enumeration over go/ssa CFG paths with verified callee summaries (no solver)",),
 "C14":other("Every component-mutating call in the shard package is dominated by a writable-mode test (mutators derived from bbolt write transactions); every bbolt write transaction, write-cache mutation and FSTree mutation is dominated by the component's own read-only test; each SetMode stores the mode it reports.")+("static analysis: guard-dominance dataflow with derived mutator sets (call-graph reachability) + must-pass-through on SetMode success returns",),
 "C15":other("Order of cross-component steps on every path: metadata after data on put, cache delete after main-storage put on flush, blob delete after metabase delete, cache drop after metabase mark, rollback on metabase failure.")+("static analysis: must-precede (guard-dominance) dataflow on go/ssa",),
 "C16":other("Flush-before-delete, flush-before-detach in SetMode, blob-storage fallback on every unjustified return of fetchObjectData, RLock pairing in the flush worker.")+("static analysis: guard-dominance dataflow + must-follow (post-dominance) on go/ssa",),
